@@ -271,3 +271,5 @@ mut("c11f-updated-without-deleted-prev", "C11", "yrs/src/types/mod.rs", "       
     "                        if let Some(prev) = prev.as_deref() {\n                            if !prev.is_deleted() || txn.has_deleted(&prev.id) {\n                                let old_value = prev.content.get_last().unwrap_or_default();\n                                keys.insert(\n                                    key.clone(),\n                                    EntryChange::Updated(old_value, new_value),", "C11.f")
 mut("c11g-removed-also-for-added", "C11", "yrs/src/types/mod.rs", "                if txn.has_deleted(&item.id) && !txn.has_added(&item.id) {", "                if txn.has_deleted(&item.id) {", "C11.g")
 mut("c11g-benign-named-flags", "C11", "yrs/src/types/mod.rs", "                if txn.has_deleted(&item.id) && !txn.has_added(&item.id) {", "                let gone = txn.has_deleted(&item.id);\n                let fresh = txn.has_added(&item.id);\n                if gone && !fresh {", "", kind="benign")
+mut("split-deleted-keeps-full-len", "C03", B, "                let right = ItemContent::Deleted(*len - offset as u32);\n                *len = offset as u32;", "                let right = ItemContent::Deleted(*len - offset as u32);", "splice", also=["C04"])
+mut("split-any-returns-left", "C03", B, "                *self = ItemContent::Any(left);\n                Some(ItemContent::Any(right))", "                *self = ItemContent::Any(right);\n                Some(ItemContent::Any(left))", "splice", also=["C04"])
